@@ -314,6 +314,21 @@ def srcsOk (cfg : Cfg) : List Rule → List RuleSrc → Bool
   | _, [] => true
   | earlier, r :: rs => srcOk cfg earlier r && srcsOk cfg (earlier ++ [denoteRule cfg earlier r]) rs
 
+/-! ### SUPERIORS lists as written ("Duplicate ids in the list will cause an error") -/
+
+/-- the names written after a `SUPERIORS` keyword: identifiers and commas up to the next other token -/
+def supListNames : List Tok → List String
+  | [] => []
+  | t :: rest =>
+    if t.type == .identifier then t.text :: supListNames rest
+    else if t.type == .comma then supListNames rest else []
+
+/-- no `SUPERIORS` list in the text names a rule twice (a text that does is ill-formed, whatever
+    the named rules inherit) -/
+def supListsDistinct : List Tok → Bool
+  | [] => true
+  | t :: rest => (if t.type == .superiors then !hasDupStr (supListNames rest) else true) && supListsDistinct rest
+
 /-! ### what an accepted rule set must look like ("ill-formed input is rejected") -/
 
 mutual
